@@ -1,5 +1,105 @@
-"""Runs Kani harnesses of /verif/kani against /repo (path dependency).  Filled in with the C16 unit."""
+"""Runs Kani harnesses of /verif/kani against /repo (path dependency with feature verif_hooks).
+
+Each harness is a `#[kani::proof]` over `kani::any()` data bounded as stated in its doc comment; the
+result is reported as `bounded` (never counted as an unbounded proof).  A FAILED harness carries Kani's
+concrete playback values, which are written to a replay file for `replay/` (same decoder as the harness).
+"""
+import os
+import re
+import shutil
+import subprocess
+import time
+from concurrent.futures import ThreadPoolExecutor
+
+VERIF = os.path.dirname(os.path.dirname(os.path.abspath(__file__)))
+KANI_DIR = os.path.join(VERIF, 'kani')
+
+
+def _parse_playback(text):
+    """-> list of (check description, [values])  from `--concrete-playback=print` output"""
+    res = []
+    for m in re.finditer(r'/// Check for `(\w+)`: "([^"]*)"(.*?)kani::concrete_playback_run', text, re.S):
+        kind, desc, body = m.groups()
+        vals = []
+        for v in re.finditer(r'vec!\[([0-9, ]*)\]', body):
+            bs = [int(x) for x in v.group(1).split(',') if x.strip()]
+            n = 0
+            for i, b in enumerate(bs):
+                n |= b << (8 * i)
+            vals.append(n)
+        res.append((kind, desc, vals))
+    return res
+
+
+def run_one(h, repo, workdir):
+    name = h['name']
+    t0 = time.time()
+    env = dict(os.environ, CARGO_NET_OFFLINE='true',
+               CARGO_TARGET_DIR=os.path.join(KANI_DIR, 'target_' + name))
+    cmd = ['cargo', 'kani', '--harness', name, '-Z', 'concrete-playback', '--concrete-playback=print']
+    cmd += h.get('extra', [])
+    try:
+        lock = os.path.join(repo, 'Cargo.lock')
+        if os.path.exists(lock) and not os.path.exists(os.path.join(KANI_DIR, 'Cargo.lock')):
+            shutil.copy(lock, os.path.join(KANI_DIR, 'Cargo.lock'))
+        p = subprocess.run(cmd, cwd=KANI_DIR, env=env, stdout=subprocess.PIPE, stderr=subprocess.STDOUT, text=True,
+                           timeout=h.get('timeout', 1500))
+        out = p.stdout
+    except subprocess.TimeoutExpired as e:
+        return dict(harness=name, status='error', detail=f'timeout after {h.get("timeout", 1500)} s', checks=0, checks_ok=0,
+                    wall_s=round(time.time() - t0, 1), bound=h['bound'], label=h['label'], cmd=' '.join(cmd))
+    res = dict(harness=name, bound=h['bound'], label=h['label'], cmd=' '.join(cmd), wall_s=round(time.time() - t0, 1),
+               checks=0, checks_ok=0, detail='', replay_file=None)
+    m = re.search(r'\*\* (\d+) of (\d+) failed', out)
+    if m:
+        res['checks'] = int(m.group(2))
+        res['checks_ok'] = int(m.group(2)) - int(m.group(1))
+    cov = re.search(r'\*\* (\d+) of (\d+) cover properties satisfied', out)
+    res['cover'] = (int(cov.group(1)), int(cov.group(2))) if cov else None
+    if 'VERIFICATION:- SUCCESSFUL' in out:
+        if cov and int(cov.group(1)) < int(cov.group(2)):
+            res['status'] = 'error'
+            res['detail'] = 'vacuity guard: a cover property is unsatisfiable (no validated circuit within the bound)'
+        else:
+            res['status'] = 'ok'
+    elif 'VERIFICATION:- FAILED' in out:
+        failed = re.findall(r'Failed Checks: (.*)', out)
+        if 'out of memory' in out or not failed:
+            res['status'] = 'error'
+            res['detail'] = 'CBMC failed without a refutation: ' + out[-600:]
+        elif all('unwinding assertion' in f for f in failed):
+            res['status'] = 'error'
+            res['detail'] = 'unwinding bound too small for the current code: ' + '; '.join(failed)
+        else:
+            res['status'] = 'failed'
+            res['message'] = 'Kani refutes: ' + '; '.join(sorted(set(failed)))
+            res['rendered'] = '\n'.join(l for l in out.split('\n') if 'Failed Checks' in l or 'Status: FAILURE' in l
+                                        or 'Description' in l and 'FAILURE' in out)[:3000]
+            pb = [x for x in _parse_playback(out) if x[0] != 'cover']
+            if pb:
+                os.makedirs(workdir, exist_ok=True)
+                path = os.path.join(VERIF, 'replays', f'{name}.kani.txt')
+                os.makedirs(os.path.dirname(path), exist_ok=True)
+                with open(path, 'w') as fh:
+                    fh.write('kind: kani-values\n')
+                    fh.write(f'harness: {name}\nmax_items: {h.get("max_items", 3)}\n')
+                    fh.write('values: ' + ', '.join(str(v) for v in pb[0][2]) + '\n')
+                    fh.write(f'failed_check: {pb[0][1]}\n')
+                    fh.write('note: values are the kani::any() draws of the harness in order; `replay` feeds them to the '
+                             'same decoder (kani/src/decode.rs) and runs the real validate/eval\n')
+                res['replay_file'] = path
+    else:
+        res['status'] = 'error'
+        res['detail'] = 'kani did not report a verdict: ' + out[-1500:]
+    res['spans'] = []
+    res['tags'] = []
+    res['fn'] = h.get('fn')
+    return res
 
 
 def run_harnesses(harnesses, repo, workdir, tier):
-    return []
+    hs = [h for h in harnesses if tier == 'thorough' or not h.get('thorough_only')]
+    if not hs:
+        return []
+    with ThreadPoolExecutor(max_workers=min(4, len(hs))) as ex:
+        return list(ex.map(lambda h: run_one(h, repo, workdir), hs))
